@@ -69,7 +69,7 @@ pub fn record_data_offset(data: &[u8]) -> u64 {
 /// WDB2 header (Cataclysm 4.0+)
 ///
 /// The WDB2 format was introduced in Cataclysm and has two variants:
-/// - Basic header (build <= 12880): 28 bytes
+/// - Basic header (build <= 12880): 32 bytes (the eight fields up to and including the timestamp)
 /// - Extended header (build > 12880): 48 bytes + optional index arrays
 ///
 /// Reference: <https://wowdev.wiki/DB2>
@@ -109,7 +109,7 @@ pub struct Wdb2Header {
 
 impl Wdb2Header {
     /// The size of a basic WDB2 header in bytes (build <= 12880)
-    pub const BASIC_SIZE: usize = 28;
+    pub const BASIC_SIZE: usize = 32;
 
     /// The size of an extended WDB2 header in bytes (build > 12880)
     pub const EXTENDED_SIZE: usize = 48;
